@@ -15,6 +15,8 @@ import traceback
 
 ROOT = os.path.dirname(os.path.dirname(os.path.abspath(__file__)))
 sys.path.insert(0, ROOT)
+if os.environ.get("FVC_REPO"):
+    sys.path.insert(0, os.environ["FVC_REPO"])     # scratch copy under test (mutant self-tests): native replays import it too
 sys.setrecursionlimit(20000)
 
 
@@ -70,9 +72,14 @@ def run_instance(args):
                 # replay on the real code
                 try:
                     st, nctx = harness.run_native(h, vals)
-                    d["native"] = dict(status=st, failures=nctx.failures,
+                    d["native"] = dict(status=st, failures=nctx.failures, mode="real code, no stubs",
                                        unexpected=repr(nctx.unexpected) if nctx.unexpected else None)
                     d["reproduced"] = st in ("fail", "raised")
+                    if not d["reproduced"] and ex.assumed:
+                        st, nctx = harness.run_native(h, vals, apply_stubs=True)
+                        d["native_under_assumed_contracts"] = dict(status=st, failures=nctx.failures,
+                                                                   unexpected=repr(nctx.unexpected) if nctx.unexpected else None)
+                        d["reproduced"] = st in ("fail", "raised")
                 except Exception as e:      # noqa
                     d["native"] = dict(status="replay-crash", error=repr(e))
                     d["reproduced"] = False
@@ -137,7 +144,7 @@ def conformance(h, ex, seed, k):
             m = s.model()
             s.pop()
         vals = _values_from_model(m, ex2.symbols)
-        st, nctx = harness.run_native(h, vals)
+        st, nctx = harness.run_native(h, vals, apply_stubs=True)
         res["samples"] += 1
         if st == "ok":
             res["ok"] += 1
